@@ -97,6 +97,18 @@ def famOf : String → Option Fam
   | "find" => some .find | "rfind" => some .rfind | "ffo" => some .ffo | "ffno" => some .ffno
   | "flo" => some .flo | "flno" => some .flno | _ => none
 
+/-- iterator moves: `-` (none) or a comma-separated list of `i` (++), `d` (--), `a<n>` (+= n), `s<n>` (-= n) -/
+def movesOf (N : String → Option Nat) (tk : String) : Option (List ItMove) :=
+  if tk == "-" then some []
+  else (tk.splitOn ",").mapM fun m =>
+    if m == "i" then some ItMove.inc else if m == "d" then some ItMove.dec
+    else if m.startsWith "a" then (N (m.drop 1).toString).map ItMove.add
+    else if m.startsWith "s" then (N (m.drop 1).toString).map ItMove.sub
+    else none
+
+def revOf (tk : String) : Option Bool :=
+  if tk == "f" then some false else if tk == "r" then some true else none
+
 def parse (c : Cfg) (w : World) (toks : List String) : Option Op := do
   let N (tk : String) : Option Nat := num c w.s tk
   let I (tk : String) : Option ItArg := if tk == "end" then some .fin else (N tk).map .pos
@@ -135,6 +147,15 @@ def parse (c : Cfg) (w : World) (toks : List String) : Option Op := do
   | ["iter_crev"] => return .iterCRev
   | ["it_deref", k] => return .itDeref (← N k)
   | ["it_dist"] => return .itDist
+  | ["it_walk", d, p, ms] => return .itWalk (← revOf d) (← I p) (← movesOf N ms)
+  | ["it_walkd", d, p, ms] => return .itWalkDeref (← revOf d) (← I p) (← movesOf N ms)
+  | ["it_walki", d, p, ms, k] => do
+      let rev ← revOf d; let p' ← I p; let ms' ← movesOf N ms; let k' ← N k
+      let i := itWalk c w.s rev (itOf c w.s p') ms'
+      -- `it[ k]` beyond the buffer is undefined (the contract of `operator[]`): not asked
+      if rev then (if k' ≤ i ∧ i - k' > c.L then none else return .itWalkIdx rev p' ms' k')
+      else (if addW c i k' > c.L then none else return .itWalkIdx rev p' ms' k')
+  | ["it_rel", d, r, a, b] => return .itRel (← revOf d) (← r.toNat?) (← I a) (← I b)
   | ["insert_icc", i, n, ch] => return .insertICC (← N i) (← N n) (← chOf ch)
   | ["insert_ipc", i, a, n] => do
       let a' ← P a; let k ← N n
